@@ -25,7 +25,8 @@ def clusterAt (m : Mgr) (k : Str) : Option Str :=
 * `mem`   : a key that resolves to a `ClusterInfo` is one of its current server names      (DESIGN (ii));
 * `all`   : every current server name of a served `ClusterInfo` resolves to it            (DESIGN (iii));
 * `low`   : `Cluster` is lower-cased;
-* `alive` : a served `ClusterInfo` is not stopped.
+* `alive` : a served `ClusterInfo` is not stopped;
+* `swf`   : only existing `ClusterInfo`s are stopped.
   ((i) "the map is a function" holds by construction: `look` is a function.) -/
 structure Inv (m : Mgr) : Prop where
   wf : ∀ k p, m.look k = some p → ∃ ci, m.heap[p]? = some ci
@@ -33,6 +34,7 @@ structure Inv (m : Mgr) : Prop where
   all : ∀ k p ci, m.look k = some p → m.heap[p]? = some ci → ∀ n ∈ loadServerNames lower ci, m.look n = some p
   low : ∀ (p : Nat) (ci : CI), m.heap[p]? = some ci → lower ci.cluster = ci.cluster
   alive : ∀ k p, m.look k = some p → p ∉ m.stopped
+  swf : ∀ p, p ∈ m.stopped → ∃ ci, m.heap[p]? = some ci
 
 def invB (m : Mgr) : Bool :=
   (m.map.all fun e =>
@@ -45,7 +47,8 @@ def invB (m : Mgr) : Bool :=
         decide (e.1 ∈ loadServerNames lower ci)
         && (loadServerNames lower ci).all (fun n => decide (m.look n = some p))
         && !(decide (p ∈ m.stopped)))
-  && m.heap.all fun ci => decide (lower ci.cluster = ci.cluster)
+  && (m.heap.all fun ci => decide (lower ci.cluster = ci.cluster))
+  && m.stopped.all fun p => decide (p < m.heap.length)
 
 /-- An event for cluster `c` leaves every name held by another cluster alone (same `ClusterInfo`, same content,
     same running state), and every key whose mapping changed belonged to `c` before or belongs to `c` afterwards. -/
